@@ -439,6 +439,36 @@ fn run_inproc(ctx: &Ctx) {
         });
     }
 
+    // ---- B2. hex escapes at code-point boundaries in every escape-accepting position -----
+    {
+        let cps: &[&str] = &[
+            "0", "1", "9", "a", "d", "1f", "20", "22", "27", "5c", "7f", "80", "9f", "a0", "ff", "d7ff", "d800", "dbff", "dc00",
+            "dfff", "e000", "fffd", "fffe", "ffff", "10000", "10ffff", "110000", "ffffff", "0000041", "00041", "41 ", "41g",
+        ];
+        let tails: &[&str] = &["", " ", "x", "0"];
+        let pos: &[&str] = &[
+            "a{b:\"\\\u{1}\"}", "a{b:'\\\u{1}'}", "a{b:\\\u{1}}", "a{b:x\\\u{1}}", "a{\\\u{1}:c}", "\\\u{1}{b:c}", ".\\\u{1}{b:c}", "#\\\u{1}{b:c}",
+            "a[b=\"\\\u{1}\"]{c:d}", "a[\\\u{1}]{c:d}", "a:\\\u{1}{b:c}", "a{b:url(\\\u{1})}", "a{b:url(\"\\\u{1}\")}", "@import \"\\\u{1}\";",
+            "@import \"\\\u{1}.css\";", "$\\\u{1}: 1; a{b:$\\\u{1}}", "@\\\u{1} x;", "@media \\\u{1}{a{b:c}}", "a{b:1\\\u{1}}", "a{b:#\\\u{1}}",
+            "a{b:unquote(\"\\\u{1}\")}", "a{b:\"#{\"\\\u{1}\"}\"}", "a{b:str-length(\"\\\u{1}\")}", "@use \"\\\u{1}\";", "/* \\\u{1} */", "a{--x: \\\u{1}}",
+            "@keyframes \\\u{1}{from{a:b}}", "@function \\\u{1}(){@return 1}", "a{b:f\\\u{1}(1)}", "%\\\u{1}{b:c} d{@extend %\\\u{1}}",
+        ];
+        let (nc, nt, np) = (cps.len() as u64, tails.len() as u64, pos.len() as u64);
+        run_list(ctx, "B2.escapes", "32 hex-escape spellings (control, surrogate, non-character and out-of-range code points, over-long digit runs) x 4 following characters x 30 positions x 3 syntaxes", nc * nt * np * 3, &|i| {
+            let cp = cps[(i % nc) as usize];
+            let t = tails[((i / nc) % nt) as usize];
+            let p = pos[((i / (nc * nt)) % np) as usize];
+            let syn = Syn::ALL[(i / (nc * nt * np)) as usize];
+            let body = p.replace('\u{1}', &format!("{}{}", cp, t));
+            if syn == Syn::Sass {
+                // indented form: one statement per line
+                (body.replace("{", "\n  ").replace("}", "\n").replace(';', "\n"), syn)
+            } else {
+                (body, syn)
+            }
+        });
+    }
+
     // ---- D. one-edit neighbourhood of the corpus ------------------------------------
     let corp = corpus::load();
     if corp.len() < 3000 {
@@ -810,6 +840,12 @@ pub const PUMPS: &[(&str, &str, &str, &str)] = &[
     ("supports-not", "@supports ", "(a:b)", "{c{d:e}}"),
 ];
 
+/// Width ("volume") pumps: N distinct things of one kind in one compilation. All must pass.
+pub const WIDTHS: &[&str] = &[
+    "w-idents", "w-selectors", "w-compound", "w-string", "w-args", "w-decls", "w-extends", "w-placeholders", "w-media", "w-vars",
+    "w-functions", "w-list", "w-map", "w-keyframes", "w-comments",
+];
+
 pub fn pump_source(name: &str, d: usize) -> (String, Option<MemFs>) {
     let rep = |s: &str| s.repeat(d);
     let src = match name {
@@ -830,6 +866,21 @@ pub fn pump_source(name: &str, d: usize) -> (String, Option<MemFs>) {
         "selector-descendants" => format!("{}{{b:c}}", rep("a ")),
         "at-root" => format!("{}b{{c:d}}{}", rep("@at-root{"), rep("}")),
         "supports-not" => format!("@supports {}(a:b){}{{c{{d:e}}}}", rep("not ("), rep(")")),
+        "w-idents" => format!("@for $i from 1 through {} {{ a {{ p-#{{$i}}: v#{{$i}} }} }}", d),
+        "w-selectors" => format!("@for $i from 1 through {} {{ .c-#{{$i}} {{ x: y }} }}", d),
+        "w-compound" => format!("$s: \"\"; @for $i from 1 through {} {{ $s: $s + \".k#{{$i}}\"; }} #{{$s}} {{ x: y }}", d.min(20000)),
+        "w-string" => format!("$s: \"ab\"; @while str-length($s) < {} {{ $s: $s + $s; }} a {{ l: str-length($s); u: str-length(to-upper-case($s)); i: str-index($s, \"ba\") }}", d),
+        "w-args" => format!("@function f($a...) {{ @return length($a); }} a {{ b: f({}) }}", (0..d.min(20000)).map(|i| i.to_string()).collect::<Vec<_>>().join(",")),
+        "w-decls" => format!("a {{ {} }}", (0..d).map(|i| format!("p{}: {};", i % 977, i)).collect::<String>()),
+        "w-extends" => format!("%p {{ x: y }} @for $i from 1 through {} {{ .e-#{{$i}} {{ @extend %p; }} }}", d.min(5000)),
+        "w-placeholders" => format!("@for $i from 1 through {} {{ %p-#{{$i}} {{ x: $i }} .u-#{{$i}} {{ @extend %p-#{{$i}}; }} }}", d.min(20000)),
+        "w-media" => format!("@for $i from 1 through {} {{ @media (min-width: #{{$i}}px) {{ a {{ x: $i }} }} }}", d),
+        "w-vars" => format!("{} a {{ b: $v{} }}", (0..d.min(100000)).map(|i| format!("$v{}: {};", i, i)).collect::<String>(), d.min(100000) - 1),
+        "w-functions" => format!("{} a {{ b: f{}() }}", (0..d.min(30000)).map(|i| format!("@function f{}(){{@return {}}}", i, i)).collect::<String>(), d.min(30000) - 1),
+        "w-list" => format!("$l: ({}); a {{ n: length($l); x: nth($l, -1); i: index($l, {}) }}", (0..d.min(100000)).map(|i| i.to_string()).collect::<Vec<_>>().join(","), d.min(100000) - 1),
+        "w-map" => format!("$m: ({}); a {{ n: length($m); x: map-get($m, k{}) }}", (0..d.min(30000)).map(|i| format!("k{}: {}", i, i)).collect::<Vec<_>>().join(","), d.min(30000) - 1),
+        "w-keyframes" => format!("@keyframes k {{ {} }}", (0..d.min(100000)).map(|i| format!("{}% {{ x: {} }}", (i % 10001) as f64 / 100.0, i)).collect::<String>()),
+        "w-comments" => format!("{} a {{ b: c }}", (0..d.min(100000)).map(|i| format!("/* c{} */", i)).collect::<String>()),
         "import-chain" => {
             let mut fs = MemFs::new();
             for i in 0..d {
@@ -879,24 +930,38 @@ fn space_pump(ctx: &Ctx) {
     if !matches!(ctx.mode, Mode::Normal) {
         return;
     }
-    let must: &[usize] = &[16, 64, 256];
-    let explore: &[usize] = if ctx.quick() { &[1024, 16384] } else { &[1024, 4096, 16384, 65536] };
+    let t_start = std::time::Instant::now();
+    let must: &[usize] = if ctx.quick() { &[64, 256] } else { &[16, 64, 256] };
+    let explore: &[usize] = if ctx.quick() { &[16384] } else { &[1024, 4096, 16384, 65536] };
     let exe = std::env::current_exe().expect("exe");
     let jobs: Vec<(usize, usize, bool)> = PUMPS
         .iter()
         .enumerate()
         .flat_map(|(pi, _)| must.iter().map(move |d| (pi, *d, true)).chain(explore.iter().map(move |d| (pi, *d, false))))
         .collect();
+    let wsizes: &[usize] = if ctx.quick() { &[70000] } else { &[1000, 70000, 300000] };
+    let wjobs: Vec<(usize, usize, bool)> = WIDTHS.iter().enumerate().flat_map(|(wi, _)| wsizes.iter().map(move |d| (PUMPS.len() + wi, *d, true))).collect();
+    let jobs: Vec<(usize, usize, bool)> = jobs.into_iter().chain(wjobs).collect();
+    let pname = |pi: usize| if pi < PUMPS.len() { PUMPS[pi].0 } else { WIDTHS[pi - PUMPS.len()] };
+    let next = std::sync::atomic::AtomicUsize::new(0);
     let results: Vec<(usize, usize, bool, String)> = std::thread::scope(|s| {
-        let hs: Vec<_> = jobs
-            .chunks((jobs.len() + 15) / 16)
-            .map(|chunk| {
+        let next = &next;
+        let jobs = &jobs;
+        let pname = &pname;
+        let hs: Vec<_> = (0..8)
+            .map(|_| {
                 let exe = exe.clone();
                 s.spawn(move || {
                     let mut out = Vec::new();
-                    for &(pi, d, m) in chunk {
+                    loop {
+                        let j = next.fetch_add(1, std::sync::atomic::Ordering::Relaxed);
+                        if j >= jobs.len() {
+                            break;
+                        }
+                        // heaviest jobs (deep / wide) first
+                        let (pi, d, m) = jobs[jobs.len() - 1 - j];
                         let mut child = std::process::Command::new(&exe)
-                            .args(["--one", "pump", PUMPS[pi].0, &d.to_string()])
+                            .args(["--one", "pump", pname(pi), &d.to_string()])
                             .stdout(std::process::Stdio::piped())
                             .stderr(std::process::Stdio::null())
                             .spawn()
@@ -941,8 +1006,8 @@ fn space_pump(ctx: &Ctx) {
     for (pi, d, must_pass, verdict) in &results {
         l.evals += 1;
         l.validated += 1;
-        l.outcome(digest_str(&format!("{}:{}", PUMPS[*pi].0, verdict)));
-        table.insert(format!("{}@{}", PUMPS[*pi].0, d), json!(verdict));
+        l.outcome(digest_str(&format!("{}:{}", pname(*pi), verdict)));
+        table.insert(format!("{}@{}", pname(*pi), d), json!(verdict));
         if verdict.starts_with("hang") && !*must_pass {
             // superlinear constructs (e.g. nested @media merging) exceed the time limit at the
             // exploratory depths; that is a cap, not a verdict
@@ -950,12 +1015,12 @@ fn space_pump(ctx: &Ctx) {
             continue;
         }
         if verdict != "ok" {
-            let key = if *must_pass { format!("pump:{}:depth={}", PUMPS[*pi].0, d) } else { format!("pump:{}:deep", PUMPS[*pi].0) };
+            let key = if *must_pass { format!("pump:{}:depth={}", pname(*pi), d) } else { format!("pump:{}:deep", pname(*pi)) };
             ctx.violation(
                 name,
                 &key,
-                &format!("{} nested {} deep: {}", PUMPS[*pi].0, d, verdict),
-                json!({"construct": PUMPS[*pi].0, "depth": d, "verdict": verdict, "reproduce": format!("target/release/mc --one pump {} {}", PUMPS[*pi].0, d)}),
+                &format!("{} pumped to {}: {}", pname(*pi), d, verdict),
+                json!({"construct": pname(*pi), "depth": d, "verdict": verdict, "reproduce": format!("target/release/mc --one pump {} {}", pname(*pi), d)}),
             );
         } else {
             l.nontrivial += 1;
@@ -963,6 +1028,7 @@ fn space_pump(ctx: &Ctx) {
     }
     ctx.merge(name, l);
     ctx.space_done(name, results.len() as u64);
+    ctx.space_wall(name, t_start.elapsed().as_secs_f64());
     ctx.extra("pump_table", serde_json::Value::Object(table));
     ctx.bound(name, "18 nestable constructs at depths 16/64/256 (must pass) and 1024..16384(65536) (explored), one fresh process each with the default 8 MiB main-thread stack", true);
     ctx.sample(name, json!({"construct": "paren", "depth": 256, "input": "a{b:((((…1…))))}"}));
